@@ -1,10 +1,13 @@
 """C02 — every decoder's recovery reproduces the syndrome.
 
 What is a THEOREM (Props/C02.lean, about Model/Decoders.lean, all lattice sizes / syndromes / matchings):
-  pairing theorem (XOR of paths over a list of pairs has syndrome = parity of endpoint occurrences), and its
-  instances planar MWPM (any perfect matching of the modelled graph; the graph always has one), toric MWPM,
-  planar / rotated-planar / colour `sample_recovery`, `times_logical_keeps_syndrome`, `naive_syndrome`,
-  `recoveryOk_sound` — with the C15 path/endpoint facts and C07 commutation facts as named hypotheses.
+  pairing_theorem / pairing_parity (XOR of paths over a list of pairs has syndrome = parity of endpoint
+  occurrences, generic over a lattice interface), planar_mwpm_syndrome + planar_graph_has_pm + planar_mwpm_total,
+  planar_cmwpm_syndrome (max_iterations >= 1), toric_mwpm_syndrome + toric_graph_has_pm (even defect count as
+  hypothesis), planar / rotated-planar / colour sample_recovery, times_logical_keeps_syndrome, naive_syndrome /
+  naive_complete / naive_full, recoveryOk_sound / recoveryOkN_iff — with the C15 path/endpoint facts, the
+  run-to-boundary lemmas and C07 commutation facts as named hypotheses (PlanarL.Spec, ToricL.Spec,
+  RotatedPlanarL.Spec, Color666L.Spec).
 What TIES the model to /repo/src (part a, exact comparison on every run):
   `sample_recovery(code, syndrome)` of the six tensor-network decoder classes; the final recovery of PlanarMWPM,
   PlanarCMWPM, ToricMWPM given the RECORDED return value of `gt.mwpm` (monkeypatched from outside), the recorded
